@@ -60,16 +60,24 @@ ChooseMethod(c) ==
   ELSE IF pref = "cohorts" /\ ~c.hasCohorts THEN "map-reduce"
   ELSE pref
 
+\* the refusals decided before the labels are looked at (engine / method / reindex compatibility): "none" or the class
+EarlyRefusal(c) ==
+  LET anyDask == c.arrDask \/ c.byDask
+      v1 == ValidateReindex(c, c.method)
+  IN
+  IF c.engine = "flox" /\ IsArg(c) THEN "NotImplementedError"
+  ELSE IF c.engine = "numbagg" /\ c.dtypeArg THEN "NotImplementedError"
+  ELSE IF c.engine = "numbagg" /\ IsArg(c) /\ anyDask THEN "NotImplementedError"
+  ELSE IF c.method = "cohorts" /\ c.byDask THEN "ValueError"
+  ELSE IF v1 = "VE" THEN "ValueError"
+  ELSE IF v1 = "NIE" THEN "NotImplementedError"
+  ELSE "none"
+
 Outcome(c) ==
   LET anyDask == c.arrDask \/ c.byDask
       v1 == ValidateReindex(c, c.method)
   IN
-  IF c.engine = "flox" /\ IsArg(c) THEN Refuse("NotImplementedError")
-  ELSE IF c.engine = "numbagg" /\ c.dtypeArg THEN Refuse("NotImplementedError")
-  ELSE IF c.engine = "numbagg" /\ IsArg(c) /\ anyDask THEN Refuse("NotImplementedError")
-  ELSE IF c.method = "cohorts" /\ c.byDask THEN Refuse("ValueError")
-  ELSE IF v1 = "VE" THEN Refuse("ValueError")
-  ELSE IF v1 = "NIE" THEN Refuse("NotImplementedError")
+  IF EarlyRefusal(c) # "none" THEN Refuse(EarlyRefusal(c))
   ELSE IF c.byDask /\ v1 = "T" /\ ~c.expected THEN Refuse("ValueError")
   ELSE IF c.fclass \in {"fl", "nanfl"} /\ anyDask /\ c.byNdim = 2 /\ c.allAxes THEN Refuse("ValueError")   \* first/last: one axis only for dask
   ELSE IF ~c.allAxes /\ c.byNdim > 1 /\ c.byDask /\ ~c.expected THEN Refuse("NotImplementedError")
